@@ -2,14 +2,23 @@
    Only statements, `exact`, and Print Assumptions live here. *)
 From Coq Require Import NArith ZArith List Bool.
 Require Import Board Stack Rules Move Refine RefinePlace RefinePlace2 RefinePlace3 Slide1 Slide2 Slide3 Slide4 Slide5 Slide6 Slide7 Slide8 MoveRefines.
+Require Import HashInv GameOver Alloc Tps Generated.Consts.
+Require Import Preserve1 Preserve2 PreserveExt Preserve3 Preserve4 Preserve5 Preserve6 Reach1 PreserveEx.
+Import ListNotations.
 
-(* For every well-formed position p (board_ok: bitboards, heights and stack words describe a board
-   whose squares hold only flats below the top; byte-range reserves; tall_ok: representation limit)
-   and EVERY raw move value m other than Pass - any int8 coordinates, any type code, any Slides word -
-   the code-shaped model of MovePreallocated (with the real per-square hash) returns Ok exactly when
-   the rules of Tak (Rules.v) allow the move, its result then abstracts to exactly the rules
-   successor (every stack, reserves, ply), it returns Err exactly when the rules reject, and it
-   never panics. *)
+(* Vocabulary (definitions in Preserve1.v, Preserve5.v, Preserve6.v, Reach1.v):
+   pos_ok p      the invariant: 3 <= size <= 8; board_ok (bitboards, heights and stack words describe a board whose
+                 squares hold only flats below the top, every stack <= 64); byte-range reserves; ext_ok: every stack word
+                 has no bit at or above Height-1, no bitboard bit outside the board, lists of length size^2, and
+                 hash = fnvBasis xor XOR_i hash_at i (the real per-square hash hsq).
+   mv            move_prealloc hsq true = the repaired MovePreallocated with the real hash.
+   step_ok p p'  size, tie-break flag unchanged; move+1; total (pieces on board + reserves) unchanged; byte-range
+                 reserves; ext_ok of p' (so the hash and canonical-word clauses hold for EVERY successful move).
+   same_shape s p'  stack lengths of the abstract position s = Height entries of p'.
+   heights64 p'  no Height entry of p' above 64.      fits64 p m  no stack of the rules successor above 64.
+   replay        fold of mv over a list of raw moves;  no_pass: no move of type code 1. *)
+
+(* First version (kept): every stack at most 64 - size. *)
 Theorem C01_move_refines_rules : forall p m,
   (3 <= size p <= 8)%N -> board_ok (size p) (bview p) -> reserves_ok p -> tall_ok p -> mT m <> 1%N ->
   match mv p m with
@@ -19,3 +28,130 @@ Theorem C01_move_refines_rules : forall p m,
   end.
 Proof. exact move_refines_rules. Qed.
 Print Assumptions C01_move_refines_rules.
+
+(* The full statement of DESIGN 5.1 with the EXACT representation limit.  For every position satisfying the
+   invariant and EVERY raw move value m other than Pass (any int8 coordinates, type code, Slides word) whose rules
+   successor, if any, has no stack above 64: the model succeeds exactly when the rules allow the move, the result
+   abstracts to exactly the rules successor AND satisfies the invariant again; it fails exactly when the rules
+   reject; it never panics. *)
+Theorem C01_move_refines_rules64 : forall p m, pos_ok p -> fits64 p m -> mT m <> 1%N ->
+  match mv p m with
+  | Ok p' => rules_move (abs p) (raw m) = Some (abs p') /\ pos_ok p' /\ step_ok p p'
+  | Err => rules_move (abs p) (raw m) = None
+  | Panic => False
+  end.
+Proof. exact move_refines_rules64. Qed.
+Print Assumptions C01_move_refines_rules64.
+
+(* The same without any hypothesis on the successor: legality (Ok/Err), panic-freedom, the fields outside the board,
+   the piece count, the hash invariant and the stack LENGTHS are right for every move from a position satisfying
+   the invariant; the stack CONTENTS are right (and the invariant holds again) as soon as the result has no stack
+   above 64. *)
+Theorem C01_move_exact : forall p m, pos_ok p -> mT m <> 1%N ->
+  match mv p m with
+  | Ok p' => exists s, rules_move (abs p) (raw m) = Some s /\ step_ok p p' /\ same_shape s p' /\
+                       (heights64 p' -> s = abs p' /\ pos_ok p')
+  | Err => rules_move (abs p) (raw m) = None
+  | Panic => False
+  end.
+Proof. exact move_exact. Qed.
+Print Assumptions C01_move_exact.
+
+(* the first version's hypothesis implies the exact one *)
+Theorem C01_tall_ok_fits64 : forall p m, pos_ok p -> tall_ok p -> mT m <> 1%N -> fits64 p m.
+Proof. exact tall_ok_fits64. Qed.
+Print Assumptions C01_tall_ok_fits64.
+
+(* PRESERVATION with at most 64 pieces in the game: no height hypothesis at all. *)
+Theorem C01_move_preserves_small : forall p m p', pos_ok p -> (total p <= 64)%N -> mT m <> 1%N -> mv p m = Ok p' ->
+  rules_move (abs p) (raw m) = Some (abs p') /\ pos_ok p' /\ step_ok p p'.
+Proof. exact move_preserves_small. Qed.
+Print Assumptions C01_move_preserves_small.
+
+(* tak.New (Alloc.new_pos: empty board, hash = fnvBasis) satisfies the invariant and is the rules' start position. *)
+Theorem C01_new_ok : forall sz bwt stones caps, (3 <= sz <= 8)%N -> (stones < 256)%N -> (caps < 256)%N ->
+  pos_ok (new_pos sz bwt stones caps) /\
+  abs (new_pos sz bwt stones caps) = rules_start (N.to_nat sz) stones caps bwt /\
+  total (new_pos sz bwt stones caps) = (2 * (stones + caps))%N.
+Proof. exact new_ok. Qed.
+Print Assumptions C01_new_ok.
+
+(* ... and it is what FromSquares of an empty board with the default reserves builds (the spelling of tak.New in
+   Tps.v / PtnFile.v / Tei.v / Symmetry.v), for the regenerated constants *)
+Theorem C01_from_squares_empty_is_new : forall sz, In sz [3; 4; 5; 6; 7; 8]%N ->
+  Tps.from_squares gen_basis sz (repeat (repeat [] (N.to_nat sz)) (N.to_nat sz)) 0 =
+  new_pos sz false (nth (N.to_nat sz) gen_defaultPieces 0%N) (nth (N.to_nat sz) gen_defaultCaps 0%N).
+Proof. exact from_squares_empty_is_new. Qed.
+Print Assumptions C01_from_squares_empty_is_new.
+
+(* EVERY REACHABLE POSITION.  Replaying any list of raw move values (no Pass) from a position satisfying the invariant
+   in a game of at most 64 pieces: the replay fails exactly when the rules reject one of the moves, never panics, and
+   the position reached satisfies the invariant and abstracts to the position the rules reach. *)
+Theorem C01_replay_refines : forall ms p, pos_ok p -> (total p <= 64)%N -> no_pass ms ->
+  match replay p ms with
+  | Ok q => play (abs p) (map raw ms) = Some (abs q) /\ pos_ok q /\ total q = total p /\ size q = size p /\
+            Move.black_wins_ties q = Move.black_wins_ties p /\ move q = (move p + Z.of_nat (length ms))%Z
+  | Err => play (abs p) (map raw ms) = None
+  | Panic => False
+  end.
+Proof. exact replay_refines. Qed.
+Print Assumptions C01_replay_refines.
+
+(* the same for any game (sizes 7, 8 with 84 and 104 pieces), under the exact limit along the way *)
+Theorem C01_replay_refines64 : forall ms p, pos_ok p -> no_pass ms ->
+  (forall ms1 ms2 q, ms = ms1 ++ ms2 -> replay p ms1 = Ok q -> heights64 q) ->
+  match replay p ms with
+  | Ok q => play (abs p) (map raw ms) = Some (abs q) /\ pos_ok q /\ total q = total p /\ size q = size p
+  | Err => play (abs p) (map raw ms) = None
+  | Panic => False
+  end.
+Proof. exact replay_refines64. Qed.
+Print Assumptions C01_replay_refines64.
+
+Corollary C01_reachable_ok : forall sz bwt stones caps ms p,
+  (3 <= sz <= 8)%N -> (2 * (stones + caps) <= 64)%N -> no_pass ms ->
+  replay (new_pos sz bwt stones caps) ms = Ok p ->
+  pos_ok p /\ total p = (2 * (stones + caps))%N /\ size p = sz /\
+  play (rules_start (N.to_nat sz) stones caps bwt) (map raw ms) = Some (abs p).
+Proof. exact reachable_ok. Qed.
+Print Assumptions C01_reachable_ok.
+
+(* every position on the way *)
+Corollary C01_reachable_prefix_ok : forall sz bwt stones caps ms1 ms2 p,
+  (3 <= sz <= 8)%N -> (2 * (stones + caps) <= 64)%N -> no_pass (ms1 ++ ms2) ->
+  replay (new_pos sz bwt stones caps) (ms1 ++ ms2) = Ok p ->
+  exists q, replay (new_pos sz bwt stones caps) ms1 = Ok q /\ pos_ok q /\
+            play (rules_start (N.to_nat sz) stones caps bwt) (map raw ms1) = Some (abs q).
+Proof. exact reachable_prefix_ok. Qed.
+Print Assumptions C01_reachable_prefix_ok.
+
+(* with the default piece counts of sizes 3..6 (20, 30, 44, 62 pieces; constants regenerated from /repo) no height
+   hypothesis is left *)
+Corollary C01_reachable_ok_default : forall sz bwt ms p, (3 <= sz <= 6)%N -> no_pass ms ->
+  let stones := nth (N.to_nat sz) gen_defaultPieces 0%N in let caps := nth (N.to_nat sz) gen_defaultCaps 0%N in
+  replay (new_pos sz bwt stones caps) ms = Ok p ->
+  pos_ok p /\ play (rules_start (N.to_nat sz) stones caps bwt) (map raw ms) = Some (abs p).
+Proof. exact reachable_ok_default. Qed.
+Print Assumptions C01_reachable_ok_default.
+
+(* NON-VACUITY: a 5x5 position after 14 plies (5-high stack at e2, black wall at e3, white capstone at e4) satisfies
+   every hypothesis; the capstone flattens the wall; the tall stack is dealt out 2,1,1,1; a wrapped off-board junk
+   move is rejected by both sides. *)
+Theorem C01_nonvacuous_reachable : pos_ok p14 /\ total p14 = 44%N /\
+  nth 9 (sq (abs p14)) [] = [(Rules.White, Flat); (Rules.Black, Flat); (Rules.Black, Flat); (Rules.Black, Flat); (Rules.Black, Flat)] /\
+  play (rules_start 5 21 1 false) (map raw ms14) = Some (abs p14).
+Proof. exact ex_reachable. Qed.
+Print Assumptions C01_nonvacuous_reachable.
+
+Theorem C01_nonvacuous_flatten : pos_ok p14 /\ fits64 p14 m_flatten /\ mT m_flatten <> 1%N /\
+  exists p', mv p14 m_flatten = Ok p' /\ nth 14 (sq (abs p')) [] = [(Rules.White, Cap); (Rules.Black, Flat)].
+Proof. exact ex_flatten. Qed.
+Print Assumptions C01_nonvacuous_flatten.
+
+Theorem C01_nonvacuous_long_slide : pos_ok p14 /\ fits64 p14 m_long /\ mT m_long <> 1%N /\
+  exists p', mv p14 m_long = Ok p' /\
+    firstn 5 (skipn 5 (sq (abs p'))) =
+      [[(Rules.White, Flat)]; [(Rules.Black, Flat)]; [(Rules.Black, Flat)]; [(Rules.Black, Flat); (Rules.Black, Flat)]; []] /\
+    scratch_hash gen_basis p' = hash p'.
+Proof. exact ex_long_slide. Qed.
+Print Assumptions C01_nonvacuous_long_slide.
